@@ -70,3 +70,18 @@ func VerifTar(names []string, contents [][]byte) []byte {
 	_ = tw.Close()
 	return buf.Bytes()
 }
+
+// VerifGenerateTar runs the real generateTar of the torrent (the sending side of a move) and returns the archive.
+func VerifGenerateTar(t *Torrent) ([]byte, error) {
+	pr, pw := io.Pipe()
+	go t.generateTar(pw)
+	return io.ReadAll(pr)
+}
+
+// VerifSessionDataDir is the directory the session's file storage uses for the torrent with this id.
+func VerifSessionDataDir(s *Session, id string) string {
+	if p, ok := s.storage.(*fileStorageProvider); ok {
+		return p.getDataDir(id)
+	}
+	return ""
+}
